@@ -140,7 +140,11 @@ func relKind(typ string) string {
 // R-FRESH-DEP/relid
 // ---------------------------------------------------------------------------
 
-func ruleFreshRelID(r *Run) {
+func ruleFreshRelID(r *Run) { freshRelID(r, "", 10) }
+
+func ruleFreshRelIDImage(r *Run) { freshRelID(r, "image", 2) }
+
+func freshRelID(r *Run, onlyKind string, min int) {
 	p := r.P
 	lits := collectRelLiterals(p)
 	sl := newSlicer(p)
@@ -173,6 +177,9 @@ func ruleFreshRelID(r *Run) {
 		if !intoExisting {
 			continue // a fresh list with only library-chosen ids
 		}
+		if onlyKind != "" && kind != onlyKind {
+			continue
+		}
 		n++
 		res := sl.Slice(rl.ID.Val)
 		dep := res.readsField(p, pkgDoc, "Relationship", "ID")
@@ -182,7 +189,7 @@ func ruleFreshRelID(r *Run) {
 			fmt.Sprintf("%s gives the new %s relationship (list %s) an id computed from {%s}; a fresh id for a list with arbitrary existing ids must be computed from those ids: reads existing Relationship.ID = %v",
 				shortName(rl.Fn), kind, rl.List, fp, dep))
 	}
-	r.Min("relationship_id_allocations", n, 10)
+	r.Min("relationship_id_allocations", n, min)
 }
 
 // ---------------------------------------------------------------------------
@@ -234,7 +241,11 @@ func collectPartStores(p *Program) []partStore {
 	return out
 }
 
-func ruleRelAttach(r *Run) {
+func ruleRelAttach(r *Run) { relAttach(r, nil, 12) }
+
+func ruleRelAttachImage(r *Run) { relAttach(r, map[string]bool{"image": true}, 2) }
+
+func relAttach(r *Run, kinds map[string]bool, min int) {
 	p := r.P
 	lits := collectRelLiterals(p)
 	parts := collectPartStores(p)
@@ -245,6 +256,9 @@ func ruleRelAttach(r *Run) {
 			continue
 		}
 		kind := relKind(rl.Type)
+		if kinds != nil && !kinds[kind] {
+			continue
+		}
 		own, ok := relOwner[kind]
 		n++
 		key := fmt.Sprintf("%s:%s", shortName(rl.Fn), kind)
@@ -258,13 +272,21 @@ func ruleRelAttach(r *Run) {
 			// fresh literal: find the struct field the literal list is stored to
 			list = freshListOwner(p, rl)
 		}
-		listOK := strings.HasPrefix(list, own.list+".") || list == own.list || strings.HasPrefix(list, own.list+"(")
-		if rl.List == "" && list == "" {
-			listOK = true // serialised directly (e.g. the styles relationship built at save time)
-			if kind != "styles" {
-				listOK = false
+		if !strings.HasPrefix(list, "relationships") && !strings.HasPrefix(list, "documentRelationships") {
+			// built into a local list that the same function serialises into a relationship part
+			for _, ps := range parts {
+				if ps.Fn != rl.Fn {
+					continue
+				}
+				switch k, _ := ps.Key.isConst(); k {
+				case "word/_rels/document.xml.rels":
+					list = "documentRelationships(serialised)"
+				case "_rels/.rels":
+					list = "relationships(serialised)"
+				}
 			}
 		}
+		listOK := strings.HasPrefix(list, own.list+".") || list == own.list || strings.HasPrefix(list, own.list+"(")
 		r.Check("rel-attach-owner", key, rl.Pos, listOK,
 			fmt.Sprintf("a %s relationship belongs to %s (part directory %q) but %s attaches it to %q", kind, own.list, own.base, shortName(rl.Fn), list))
 		// target resolves to a stored part
@@ -287,7 +309,7 @@ func ruleRelAttach(r *Run) {
 		r.Check("rel-attach-target", key, rl.TargetSt.Pos(), found,
 			fmt.Sprintf("relationship target %q resolved against %q must name a part the library stores: want part key %q; found=%v %s", symOf(rl.Target).String(), own.base, want.String(), found, where))
 	}
-	r.Min("typed_relationship_literals", n, 12)
+	r.Min("typed_relationship_literals", n, min)
 }
 
 // freshListOwner: for a relationship that is an element of a fresh slice literal, the
@@ -314,7 +336,13 @@ func freshListOwner(p *Program, rl *relLiteral) string {
 // R-REF-FLOW: ids placed in the body are the ids of the relationship just created.
 // ---------------------------------------------------------------------------
 
-func ruleRefFlow(r *Run) {
+func ruleRefFlow(r *Run) { refFlow(r, true, true) }
+
+func ruleRefFlowImage(r *Run) { refFlow(r, false, true) }
+
+func ruleRefFlowHF(r *Run) { refFlow(r, true, false) }
+
+func refFlow(r *Run, wantHF, wantImg bool) {
 	p := r.P
 	lits := collectRelLiterals(p)
 	byFn := map[*ssa.Function][]*relLiteral{}
@@ -349,7 +377,11 @@ func ruleRefFlow(r *Run) {
 			}
 		})
 	}
-	r.Min("reference_helpers", len(helpers), 2)
+	if !wantHF {
+		helpers = nil
+	} else {
+		r.Min("reference_helpers", len(helpers), 2)
+	}
 	nSites := 0
 	for _, fn := range p.ModFuncs() {
 		allInstrs(fn, func(in ssa.Instruction) {
@@ -375,7 +407,12 @@ func ruleRefFlow(r *Run) {
 			}
 		})
 	}
-	r.Min("reference_call_sites", nSites, 6)
+	if wantHF {
+		r.Min("reference_call_sites", nSites, 6)
+	}
+	if !wantImg {
+		return
+	}
 	// (b) ImageInfo.RelationID ← id of the image relationship created in the same function
 	nImg := 0
 	for _, fn := range p.ModFuncs() {
@@ -682,4 +719,43 @@ func ruleKeyedInsert(r *Run, only map[string]bool) {
 		}
 	}
 	r.Min("keyed_appends", n, 2)
+}
+
+// ---------------------------------------------------------------------------
+// kind-injective (C11): the header/footer kinds map to pairwise distinct part names.
+// ---------------------------------------------------------------------------
+
+func ruleKindInjective(r *Run) {
+	_ = r.P
+	fn := r.mustFunc(pkgDoc, "getFileNameForType")
+	if fn == nil {
+		return
+	}
+	// region of each kind constant → symbolic return value
+	type caseRet struct {
+		kind string
+		pat  string
+	}
+	var cases []caseRet
+	for _, c := range strCompares(fn) {
+		for b := range c.Region {
+			for _, in := range b.Instrs {
+				if ret, ok := in.(*ssa.Return); ok {
+					cases = append(cases, caseRet{c.Const, symOf(retResult(ret, 0)).Pattern()})
+				}
+			}
+		}
+	}
+	r.Min("header_footer_kinds", len(cases), 3)
+	seen := map[string]string{}
+	ok := true
+	detail := ""
+	for _, c := range cases {
+		if other, dup := seen[c.pat]; dup && other != c.kind {
+			ok = false
+			detail = fmt.Sprintf("kinds %q and %q both map to part name pattern %q: one definition overwrites the other", other, c.kind, c.pat)
+		}
+		seen[c.pat] = c.kind
+	}
+	r.Check("kind-injective", "getFileNameForType", fn.Pos(), ok, "each header/footer kind has its own part name: "+map[bool]string{true: fmt.Sprintf("%d kinds, %d distinct patterns", len(cases), len(seen)), false: detail}[ok])
 }
